@@ -182,7 +182,8 @@ def _compute_integral_ir(
         entity_type,
         initial_terminals.values(),
         existing_tables,
-        use_sum_factorization=p["sum_factorization"],
+        # Only cell integrals are sum factorised (see _group_integrands_by_quadrature_rule)
+        use_sum_factorization=p["sum_factorization"] and integral_type == "cell",
         is_mixed_dim=is_mixed_dim,
         rtol=p["table_rtol"],
         atol=p["table_atol"],
